@@ -88,10 +88,16 @@ def install(rec):
 def plan(tier, seed):
     n = N_CASES[tier]
     shards = 16
-    return [{"n": n // shards, "shard": i} for i in range(shards)]
+    shards_ = [{"n": n // shards, "shard": i} for i in range(shards)]
+    # plus the repository's own test-suite run with this check's contracts armed (DESIGN 6.4)
+    return shards_ + [{"kind": "suite", "shard": 99}]
 
 
 def run_shard(spec, rec):
+    if spec.get("kind") == "suite":
+        from vlib import suite
+        suite.run_suite("checks.c11", rec)
+        return
     rng = random.Random(f"c11-{spec['seed']}-{spec['shard']}")
     for i in range(spec["n"]):
         combo = nn.COMBOS[i % len(nn.COMBOS)]
